@@ -133,7 +133,14 @@ class Ctx:
         return thorough if self.thorough else quick
 
     # ---- observations -------------------------------------------------------------------------------------
-    def hit(self, key, n=1):
+    def hit(self, key, *more):
+        """count an observation; hit(key, n) adds n; further string arguments are counted as keys of their own"""
+        n = 1
+        for m in more:
+            if isinstance(m, str):
+                self.counts[m] += 1
+            else:
+                n = m
         self.counts[key] += n
 
     def evaluated(self, n=1):
